@@ -190,3 +190,23 @@ Theorem C16_versatiles_any_encoder :
           end).
 Proof. exact vt_valid_file_lookup. Qed.
 Print Assumptions C16_versatiles_any_encoder.
+
+(* ---- PMTiles, a whole file from ANY encoder: the first 127 bytes parse as a header; metadata, root
+   directory and leaf section are where the header says and decompress; the directories form a tree
+   of at most two levels of leaf directories over the tile entries (run lengths, shared offsets and
+   any leaf sizes allowed: `stored` only asks each pointer to carry its sub-tree's first id and the
+   byte range of its directory); the entry's bytes lie inside the file.  The reader then returns,
+   for every id of every run, exactly the bytes the entry names - wherever the sections are stored *)
+From VT Require Import Proofs.PMTreeProofs Model.PMWrite Model.PMHeader Model.PMFile Proofs.PMFileProofs.
+Theorem C16_pmtiles_any_encoder :
+  forall (unzip : list N -> option (list N)) file h mz meta rz rootraw root leaves d flat e t,
+    pmh_deserialize (firstn 127 file) = Ok h ->
+    read_range file (p_meta_off h) (p_meta_len h) = Some mz -> unzip mz = Some meta ->
+    read_range file (p_root_off h) (p_root_len h) = Some rz -> unzip rz = Some rootraw -> deserialize pm_arith_variant rootraw = Ok root ->
+    read_range file (p_leaf_off h) (p_leaf_len h) = Some leaves ->
+    (d <= 2)%nat -> stored d (file_leaf unzip pm_arith_variant leaves) root flat -> runs_ok flat ->
+    In e flat -> (e_id e <= t < e_id e + e_run e)%N ->
+    (e_off e + p_data_off h <= u64_max)%N -> (e_off e + p_data_off h + e_len e <= N.of_nat (length file))%N ->
+    pm_file_lookup unzip pm_arith_variant file t = Ok (Some (Crash.sub file (N.to_nat (e_off e + p_data_off h)) (N.to_nat (e_len e)))).
+Proof. intros unzip. exact (pm_valid_file_lookup unzip pm_arith_variant). Qed.
+Print Assumptions C16_pmtiles_any_encoder.
